@@ -50,7 +50,11 @@ Contract == \A b \in Blocks : \A c \in Counts :
 \* the corpus really has an exactly-full array followed by one more element
 HitsBoundary == \E c \in Counts : c % 64 = 0 /\ c > 0 /\ (c + 1) \in Counts
 
-Shape == (IF st.k = "ini" /\ st.x > 0 THEN "ini+set" ELSE st.k)
+\* label for finding keys: which container, and whether it had to grow beyond its first block
+Block == IF st.k = "ritems" THEN st.x ELSE 64
+Elems == st.n + (IF st.k = "ini" /\ st.x > 0 THEN 1 + st.x ELSE 0)
+Shape == (IF st.k = "ini" /\ st.x > 0 THEN "ini+set" ELSE st.k) \o
+         (IF Elems > Block THEN "/grows-past-first-block" ELSE "/fits-first-block")
 Emit == PrintT(ToJson([g |-> "grow", k |-> st.k, n |-> st.n, x |-> st.x, in |-> Doc, need |-> IniNeed,
           shape |-> Shape]))
 =============================================================================
